@@ -1,5 +1,6 @@
 import Sif.Spec.C14
 import Sif.Generated.Genesis
+import Sif.Proofs.C14
 /-
   C14 — genesis export/import is lossless for everything the genesis format carries.
   Property theorems only.
@@ -21,5 +22,260 @@ theorem every_field_read : unread fields = [] := by decide +kernel
 
 /-- and the (setter, getter) calls are the reviewed ones -/
 theorem fields_reviewed : unreviewed fields = [] := by decide +kernel
+
+/-! ## The generic theorem for "collection under prefix" modules -/
+
+/-- `init (export s) = carried s`: on a key-sorted store whose records under the prefix sit under the
+    key computed from their own fields, re-initialising an empty store from the export reproduces
+    exactly the part of the store under the carried prefix — same keys, same bytes, same order. -/
+theorem init_export {α : Type} (c : Coll α) (s : Store) (hs : Sorted s) (hwf : WF c s) :
+    initC c (exportC c s) [] = under c.pfx s := by
+  rw [initC_eq_foldl_entries]
+  unfold exportC
+  rw [entries_of_export c (under c.pfx s) hwf]
+  have := foldl_set_sorted (under c.pfx s) [] (by simpa using sorted_under c.pfx s hs)
+  simpa using this
+
+/-- hence exporting the re-initialised chain yields the identical document -/
+theorem export_init_export {α : Type} (c : Coll α) (s : Store) (hs : Sorted s) (hwf : WF c s) :
+    exportC c (initC c (exportC c s) []) = exportC c s := by
+  rw [init_export c s hs hwf]
+  unfold exportC
+  rw [under_under]
+
+/-- a well-formed document whose items are in key order (what an export looks like) is reproduced
+    exactly by import followed by export -/
+theorem export_init_sorted {α : Type} (c : Coll α) (g : List α) (hok : ItemsOK c g) (hsorted : KeySorted c g) :
+    exportC c (initC c g []) = g := by
+  have hS : Sorted (g.map c.entry) := by
+    unfold Sorted KeySorted at *
+    rw [List.pairwise_map]
+    exact hsorted
+  have h1 : initC c g [] = g.map c.entry := by
+    rw [initC_eq_foldl_entries]
+    simpa using foldl_set_sorted (g.map c.entry) [] (by simpa using hS)
+  unfold exportC
+  rw [h1]
+  have h2 : under c.pfx (g.map c.entry) = g.map c.entry := by
+    unfold under
+    rw [List.filter_eq_self]
+    intro e he
+    obtain ⟨a, ha, rfl⟩ := List.mem_map.mp he
+    exact (hok a ha).2
+  rw [h2, filterMap_entries c g hok]
+
+/-- a well-formed document in ANY order, with pairwise distinct store keys, comes back as a
+    permutation of itself (the export is in key order); nothing is lost, nothing is invented -/
+theorem export_init_perm {α : Type} (c : Coll α) (g : List α) (hok : ItemsOK c g) (hnd : (g.map c.key).Nodup) :
+    (exportC c (initC c g [])).Perm g := by
+  have hp : (initC c g []).Perm (g.map c.entry) := by
+    rw [initC_eq_foldl_entries]
+    have := foldl_set_perm (g.map c.entry) [] (by simpa [Coll.entry, Function.comp_def] using hnd)
+    simpa using this
+  unfold exportC
+  have h2 : under c.pfx (initC c g []) = initC c g [] := by
+    unfold under
+    rw [List.filter_eq_self]
+    intro e he
+    obtain ⟨a, ha, rfl⟩ := List.mem_map.mp (hp.mem_iff.mp he)
+    exact (hok a ha).2
+  rw [h2]
+  have := hp.filterMap (fun e => c.dec e.2)
+  rw [filterMap_entries c g hok] at this
+  exact this
+
+/-- distinct items have distinct keys when the key function is injective on the document -/
+theorem keys_nodup_of_inj {α : Type} (c : Coll α) (g : List α) (hg : g.Nodup)
+    (hinj : ∀ a ∈ g, ∀ b ∈ g, c.key a = c.key b → a = b) : (g.map c.key).Nodup := by
+  induction g with
+  | nil => simp
+  | cons x r ih =>
+    rw [List.map_cons, List.nodup_cons]
+    rw [List.nodup_cons] at hg
+    refine ⟨?_, ih hg.2 (fun a ha b hb => hinj a (List.mem_cons_of_mem _ ha) b (List.mem_cons_of_mem _ hb))⟩
+    intro hm
+    obtain ⟨y, hy, hk⟩ := List.mem_map.mp hm
+    have := hinj y (List.mem_cons_of_mem _ hy) x (List.mem_cons_self) hk
+    subst this
+    exact hg.1 hy
+
+/-- frame: initialising another collection, all of whose keys lie outside prefix `q`, leaves what is
+    under `q` untouched (prefix disjointness is what lets the modules be treated one collection at a time) -/
+theorem init_frame {α : Type} (c : Coll α) (q : Key) (items : List α) (s0 : Store)
+    (h : ∀ a ∈ items, isPrefix q (c.key a) = false) :
+    under q (initC c items s0) = under q s0 :=
+  under_initC_other c q items s0 h
+
+/-- two collections of one module with different one-byte prefixes (e.g. clp pools 0x00 and
+    providers 0x01): importing both exports gives back, under each prefix, exactly what was there -/
+theorem init2_export2 {α β : Type} (ca : Coll α) (cb : Coll β) (pa pb : Nat) (hne : pa ≠ pb)
+    (hpa : ca.pfx = [pa]) (hpb : cb.pfx = [pb]) (s : Store) (hs : Sorted s) (hwa : WF ca s) (hwb : WF cb s) :
+    let s' := initC cb (exportC cb s) (initC ca (exportC ca s) [])
+    under [pa] s' = under [pa] s ∧ exportC cb s' = exportC cb s := by
+  intro s'
+  have ea : initC ca (exportC ca s) [] = under [pa] s := by rw [← hpa]; exact init_export ca s hs hwa
+  have keysB : ∀ b ∈ exportC cb s, isPrefix [pb] (cb.key b) = true := by
+    intro b hb
+    unfold exportC at hb
+    obtain ⟨e, he, hd⟩ := List.mem_filterMap.mp hb
+    obtain ⟨a, ha, hea⟩ := hwb e he
+    rw [ha] at hd
+    cases hd
+    have : isPrefix cb.pfx e.1 = true := by
+      unfold under at he
+      exact (List.mem_filter.mp he).2
+    rw [← hea] at this
+    rw [← hpb]
+    exact this
+  constructor
+  · show under [pa] (initC cb (exportC cb s) (initC ca (exportC ca s) [])) = under [pa] s
+    rw [init_frame cb [pa] _ _ (fun b hb => prefix_byte_disjoint pb pa (fun e => hne e.symm) _ (keysB b hb)), ea, under_under]
+  · -- the B-records: reading prefix pb commutes with the B-inserts; the A-part has nothing under pb
+    show exportC cb (initC cb (exportC cb s) (initC ca (exportC ca s) [])) = exportC cb s
+    rw [ea]
+    have hnone : under [pb] (under [pa] s) = [] := by
+      unfold under
+      rw [List.filter_eq_nil_iff]
+      intro e he
+      have := (List.mem_filter.mp he).2
+      simp [prefix_byte_disjoint pa pb hne e.1 this]
+    have hstep : under [pb] (initC cb (exportC cb s) (under [pa] s)) = under [pb] s := by
+      rw [under_initC_same cb [pb] _ _ (sorted_under [pa] s hs) keysB, hnone]
+      have := init_export cb s hs hwb
+      rw [hpb] at this
+      exact this
+    have : exportC cb (initC cb (exportC cb s) (under [pa] s)) =
+        (under [pb] (initC cb (exportC cb s) (under [pa] s))).filterMap (fun e => cb.dec e.2) := by
+      unfold exportC; rw [hpb]
+    rw [this, hstep]
+    unfold exportC
+    rw [hpb]
+
+/-! ## Injectivity of the Sifchain key functions (what makes a document's store keys pairwise distinct) -/
+
+/-- pool key `0x00 ‖ symbol_rowan`: injective in the symbol -/
+theorem poolKey_inj (rowan a b : List Nat) (h : poolKey rowan a = poolKey rowan b) : a = b := by
+  unfold poolKey joinU at h
+  exact List.append_cancel_right (List.cons.inj h).2
+
+/-- provider key `0x01 ‖ symbol_address`: split at the LAST `_` — injective as soon as addresses
+    contain no `_` (bech32), whatever the symbols contain -/
+theorem lpKey_inj (a b : List Nat × List Nat) (ha : us ∉ a.2) (hb : us ∉ b.2) (h : lpKey a = lpKey b) : a = b := by
+  unfold lpKey at h
+  obtain ⟨h1, h2⟩ := joinU_inj_right ha hb (List.cons.inj h).2
+  exact Prod.ext h1 h2
+
+/-- admin account key `0x01 ‖ type_address` -/
+theorem adminKey_inj (a b : List Nat × List Nat) (ha : us ∉ a.2) (hb : us ∉ b.2) (h : adminKey a = adminKey b) : a = b :=
+  lpKey_inj a b ha hb h
+
+/-- user claim key `0x02 ‖ address_type` (the type is printed in decimal: no `_`) -/
+theorem claimKey_inj (a b : List Nat × List Nat) (ha : us ∉ a.2) (hb : us ∉ b.2) (h : claimKey a = claimKey b) : a = b := by
+  unfold claimKey at h
+  obtain ⟨h1, h2⟩ := joinU_inj_right ha hb (List.cons.inj h).2
+  exact Prod.ext h1 h2
+
+/-- distribution record key `status ‖ name_type_recipient`: distribution names DO contain `_`
+    (`<height>_<distributor>`); injective because the type (decimal) and the recipient (bech32) do not -/
+theorem recordKey_inj (st : Nat) (a b : List Nat × List Nat × List Nat)
+    (ha2 : us ∉ a.2.1) (ha3 : us ∉ a.2.2) (hb2 : us ∉ b.2.1) (hb3 : us ∉ b.2.2)
+    (h : recordKey st a = recordKey st b) : a = b := by
+  unfold recordKey at h
+  obtain ⟨h1, h3⟩ := joinU_inj_right ha3 hb3 (List.cons.inj h).2
+  obtain ⟨h1', h2⟩ := joinU_inj_right ha2 hb2 h1
+  exact Prod.ext h1' (Prod.ext h2 h3)
+
+theorem distributionKey_inj (a b : List Nat × List Nat × List Nat)
+    (ha2 : us ∉ a.2.1) (ha3 : us ∉ a.2.2) (hb2 : us ∉ b.2.1) (hb3 : us ∉ b.2.2)
+    (h : distributionKey a = distributionKey b) : a = b :=
+  recordKey_inj 1 a b ha2 ha3 hb2 hb3 h
+
+/-- margin position key `0x01 ‖ address ‖ id` with the id in a fixed number of bytes (8) -/
+theorem mtpKey_inj (a b : List Nat × List Nat) (hlen : a.2.length = b.2.length) (h : mtpKey a = mtpKey b) : a = b := by
+  unfold mtpKey at h
+  obtain ⟨h1, h2⟩ := List.append_inj' (List.cons.inj h).2 hlen
+  exact Prod.ext h1 h2
+
+theorem prophecyKey_inj (a b : List Nat) (h : prophecyKey a = prophecyKey b) : a = b := by
+  unfold prophecyKey at h
+  exact (List.cons.inj (List.cons.inj h).2).2
+
+theorem bucketKey_inj (pfx a b : List Nat) (h : bucketKey pfx a = bucketKey pfx b) : a = b := by
+  unfold bucketKey at h
+  have := List.append_cancel_right h
+  exact List.append_cancel_left this
+
+/-- without "no `_` in the address" the provider key is NOT injective (why the hypothesis is there) -/
+example : lpKey ([99], [1, 95, 2]) = lpKey ([99, 95, 1], [2]) ∧ (([99], [1, 95, 2]) : List Nat × List Nat) ≠ ([99, 95, 1], [2]) := by decide
+
+/-! ## Instances: the clp provider collection, and the epochs exception -/
+
+/-- providers as (symbol, address, payload): keyed `0x01 ‖ symbol_address`, encoded by any injective
+    encoding `enc` with decoder `dec` (protobuf in the code; abstract here) -/
+def lpColl (enc : (List Nat × List Nat) × List Nat → Val) (dec : Val → Option ((List Nat × List Nat) × List Nat)) :
+    Coll ((List Nat × List Nat) × List Nat) :=
+  { pfx := [1], key := fun x => lpKey x.1, enc := enc, dec := dec }
+
+/-- a well-formed provider list (distinct (symbol, address) pairs, bech32 addresses) is reproduced
+    by import followed by export, up to the order -/
+theorem lp_document_roundtrip (enc : (List Nat × List Nat) × List Nat → Val) (dec : Val → Option ((List Nat × List Nat) × List Nat))
+    (hdec : ∀ x, dec (enc x) = some x) (g : List ((List Nat × List Nat) × List Nat))
+    (haddr : ∀ x ∈ g, us ∉ x.1.2) (hnd : (g.map (·.1)).Nodup) :
+    (exportC (lpColl enc dec) (initC (lpColl enc dec) g [])).Perm g := by
+  apply export_init_perm
+  · intro a _
+    exact ⟨hdec a, by simp [lpColl, lpKey, isPrefix, List.isPrefixOf]⟩
+  · have : g.map (lpColl enc dec).key = (g.map (·.1)).map lpKey := by simp [lpColl, Function.comp_def]
+    rw [this]
+    have hk := keys_nodup_of_inj ({ pfx := [1], key := lpKey, enc := fun _ => [], dec := fun _ => none } : Coll (List Nat × List Nat))
+      (g.map (·.1)) hnd (by
+        intro a ha b hb hk
+        obtain ⟨x, hx, rfl⟩ := List.mem_map.mp ha
+        obtain ⟨y, hy, rfl⟩ := List.mem_map.mp hb
+        exact lpKey_inj _ _ (haddr x hx) (haddr y hy) hk)
+    exact hk
+
+/-- epochs collection: keyed by the identifier only (the start height is payload) -/
+def epochColl (pfx : Key) (enc : Epoch → Val) (dec : Val → Option Epoch) : Coll Epoch :=
+  { pfx := pfx, key := fun e => pfx ++ e.id, enc := enc, dec := dec }
+
+/-- The one stated exception: `epochs.InitGenesis` stores every exported epoch with
+    `CurrentEpochStartHeight := the new chain's initial height`; exporting again yields exactly the
+    re-based list — identical but for that field. -/
+theorem epochs_rebase (pfx : Key) (enc : Epoch → Val) (dec : Val → Option Epoch) (hdec : ∀ x, dec (enc x) = some x)
+    (s : Store) (hs : Sorted s) (hwf : WF (epochColl pfx enc dec) s) (h : Nat) :
+    exportC (epochColl pfx enc dec) (initC (epochColl pfx enc dec) ((exportC (epochColl pfx enc dec) s).map (Epoch.rebase h)) [])
+      = (exportC (epochColl pfx enc dec) s).map (Epoch.rebase h) := by
+  apply export_init_sorted
+  · intro a _
+    refine ⟨hdec a, ?_⟩
+    simp [epochColl, isPrefix]
+  · -- re-basing does not touch the key, and the exported items are in key order
+    unfold KeySorted
+    rw [List.pairwise_map]
+    have hkeys : (exportC (epochColl pfx enc dec) s).map (epochColl pfx enc dec).entry = under pfx s :=
+      entries_of_export _ _ hwf
+    have hsorted := sorted_under pfx s hs
+    rw [← hkeys] at hsorted
+    unfold Sorted at hsorted
+    rw [List.pairwise_map] at hsorted
+    exact hsorted
+
+/-! ## Non-vacuity: a concrete store with two collections -/
+
+def exEnc : Nat × Nat → Val := fun x => [x.1, x.2]
+def exDec : Val → Option (Nat × Nat) := fun v => match v with | [a, b] => some (a, b) | _ => none
+def exA : Coll (Nat × Nat) := { pfx := [0], key := fun x => [0, x.1], enc := exEnc, dec := exDec }
+def exB : Coll (Nat × Nat) := { pfx := [17], key := fun x => [17, x.1], enc := exEnc, dec := exDec }
+def exStore : Store := [([0, 3], [3, 30]), ([0, 7], [7, 70]), ([5], [99]), ([17, 1], [1, 10]), ([17, 2], [2, 20])]
+example : Sorted exStore := by decide
+example : exportC exA exStore = [(3, 30), (7, 70)] ∧ exportC exB exStore = [(1, 10), (2, 20)] := by decide
+example : initC exA (exportC exA exStore) [] = under [0] exStore := by decide
+/-- state outside the carried prefixes (`[5] ↦ 99` here) is NOT reproduced: the property is about what the format carries -/
+example : initC exB (exportC exB exStore) (initC exA (exportC exA exStore) []) ≠ exStore := by decide
+/-- a document out of key order comes back sorted: a permutation, not the same list -/
+example : exportC exA (initC exA [(7, 70), (3, 30)] []) = [(3, 30), (7, 70)] := by decide
+/-- two items with the same key collapse: why distinct keys are part of well-formedness -/
+example : exportC exA (initC exA [(3, 30), (3, 31)] []) = [(3, 31)] := by decide
 
 end Sif.Props.C14
